@@ -4,7 +4,7 @@ from interp_common import ddx as ddx_poly
 
 EXPLANATION = ('C07: real PDF/CDF functions of the closed-form families on symbolic arguments (exp, erf, log uninterpreted with the axioms named per obligation): uniform (pure rational): pdf >= 0, CDF 0 below / 1 above / non-decreasing, CDF difference = integral of the pdf; '
                'exponential: pdf >= 0, d/dx CDF = pdf (chain rule for the uninterpreted exp), CDF in [0,1); normal and Maxwell-Boltzmann: the returned terms equal the textbook templates with numeric constants within 4 ulp of sqrt(2), 1/sqrt(2 pi), sqrt(2/pi); '
-               'binomial (trials <= bound): CDF = sum of PMF, sum over all outcomes = 1, PMF >= 0 on p in [0,1]; Poisson likelihoods: Likelihood = exp(LogLikelihood), = PMF_Poisson(s+b, n), binned = sum over bins; chi-bar-square = weighted sum; parameter guards.')
+               'binomial (trials <= bound): CDF = sum of PMF, sum over all outcomes = 1, PMF >= 0 on p in [0,1]; Poisson likelihoods: Likelihood = exp(LogLikelihood), = PMF_Poisson(s+b, n), binned = sum over bins; chi-bar-square = weighted sum; parameter guards; the series / continued-fraction loops behind CDF_Poisson and CDF_Chi_Square leave only with a converged state (inductive loop step borrowed from C06).')
 BOUNDS = {'quick': {'trials': 4, 'counts': 4, 'bins': 2}, 'thorough': {'trials': 6, 'counts': 6, 'bins': 3}}
 NOT_DECIDED = ['Poisson / chi-square / chi-bar-square CDF-PMF coherence (runs through the numerics of the incomplete gamma function)', 'Quantile_Gauss and Inv_CDF_Poisson accuracy', 'kernel density estimate (kernel sums + numeric renormalisation)', 'monotonicity of the normal and Maxwell-Boltzmann CDFs beyond the derivative identity (needs erf monotone: analysis)']
 ASSUMPTIONS = ['doubles exact reals', 'exp, erf, log uninterpreted; axioms used: exp > 0, log(1) = 0, exp(a)exp(b) = exp(a+b) only where named']
@@ -193,9 +193,14 @@ def job_poisson_likelihood(nmax, bins):
             res.append(ob('poisson/binned%d/size-mismatch-rejected' % nb, 'discharged' if ok else 'candidate', key='C07/poisson/binned-mismatch', model=None if ok else {'nb': nb}, detail=str([str(p.end) for p in ps][:2])))
     return res
 
+def job_gamma_kernel(kind):
+    """the Poisson and chi-square CDFs are the incomplete gamma kernels: their loop-step obligations (C06, same code, same keys) are re-run under this property"""
+    import C06
+    return C06.job_loop_step(kind)
+
 def jobs(ctx):
     module(ctx); b = BOUNDS[ctx.tier]
-    return [(job_uniform, ()), (job_exponential, ()), (job_normal_mb, ())] + [(job_binomial, (n,)) for n in range(0, b['trials'] + 1)] + [(job_poisson_likelihood, (b['counts'], b['bins']))]
+    return [(job_uniform, ()), (job_exponential, ()), (job_normal_mb, ())] + [(job_binomial, (n,)) for n in range(0, b['trials'] + 1)] + [(job_poisson_likelihood, (b['counts'], b['bins']))] + [(job_gamma_kernel, (k,)) for k in ('GammaPser', 'GammaQcf')]
 
 def validate(ctx):
     module(ctx); bad = []; n = 0
@@ -208,6 +213,9 @@ def validate(ctx):
 def fl(q): return q2f(q) if isinstance(q, list) else float(q)
 def replay(ctx, o):
     m = o['model'] or {}; key = o['key']; op = m.get('op')
+    if key.startswith('C06/'):
+        import C06
+        return C06.replay(ctx, o)
     if key.startswith('C07/guard'):
         r = nsf(ctx, op, fl(m.get('p', m.get('x', [1, 1]))), fl(m.get('mean', [0, 1])) if 'mean' in m else 0.0, 0.0, m.get('n', 0), m.get('k', 0)); return r['status'] != 'exit', 'native: %s' % r.get('ret', r['status'])
     if key.startswith('C07/uniform'):
